@@ -276,6 +276,7 @@ func ReadMappingValues(remainder []byte, map_length Integer) (values *MappingVal
 	var remainder_updated []byte
 	remainder_updated, map_values, errs = parseKeyValuePairs(remainder, map_values, errs)
 	values = &map_values
+	remainder_bytes = remainder_updated
 
 	log.WithFields(logger.Fields{
 		"values_count":     len(map_values),
